@@ -164,7 +164,7 @@ mod k {
         std::mem::forget(conf);
     }
 
-    /// VERIF: {"p":"C15","tier":"quick","fns":["dns::router::DnsRouteHandler::handle_query (lifted_router_handle_query: body lifted from source)","dns::dnspkt::Domain::ends_with","dns::dnspkt::compare_longest_suffix"],"bounds":"3 routes x 1 suffix, suffix lengths 0..=3 labels in EVERY order (so all permutations of a table are covered), 1-octet labels with symbolic octets (any case mix), 3-label query name, RD symbolic, each route forward(to its own server) or forge-nxdomain","oracle":"outcome = action of the matching suffix with most labels: forge-nxdomain => Blocked and nothing sent upstream; forward => sent to that route's server iff RD, else NotAuthoritative; no match => NoRouteConfigured","stubs":["tokio RwLock read = identity (single task)","next handler (cache/upstream) = recording stub","log::trace! disabled (max level Off)","config and message replaced by views holding exactly the fields the body reads (dns_routes; question, rd, qid)"],"covers":4,"unwind":6}
+    /// VERIF: {"p":"C15","tier":"experimental","fns":["dns::router::DnsRouteHandler::handle_query (lifted_router_handle_query: body lifted from source)","dns::dnspkt::Domain::ends_with","dns::dnspkt::compare_longest_suffix"],"bounds":"3 routes x 1 suffix, suffix lengths 0..=3 labels in EVERY order (so all permutations of a table are covered), 1-octet labels with symbolic octets (any case mix), 3-label query name, RD symbolic, each route forward(to its own server) or forge-nxdomain","oracle":"outcome = action of the matching suffix with most labels: forge-nxdomain => Blocked and nothing sent upstream; forward => sent to that route's server iff RD, else NotAuthoritative; no match => NoRouteConfigured","stubs":["tokio RwLock read = identity (single task)","next handler (cache/upstream) = recording stub","log::trace! disabled (max level Off)","config and message replaced by views holding exactly the fields the body reads (dns_routes; question, rd, qid)"],"covers":4,"unwind":6}
     #[kani::proof]
     #[kani::unwind(6)]
     #[kani::stub(std::hash::RandomState::new, fixed_random_state)]
@@ -172,7 +172,7 @@ mod k {
         three_routes(false);
     }
 
-    /// VERIF: {"p":"C15","tier":"quick","fns":["dns::router::DnsRouteHandler::handle_query (lifted)","dns::dnspkt::compare_longest_suffix"],"bounds":"as c15_router_longest_suffix_3routes restricted to tables written shortest, longest, middle (cheaper instance of the same obligation, kept as a regression probe for stale best-so-far tracking)","oracle":"as c15_router_longest_suffix_3routes","stubs":["tokio RwLock read = identity","next handler = recording stub"],"covers":4,"unwind":6}
+    /// VERIF: {"p":"C15","tier":"experimental","fns":["dns::router::DnsRouteHandler::handle_query (lifted)","dns::dnspkt::compare_longest_suffix"],"bounds":"as c15_router_longest_suffix_3routes restricted to tables written shortest, longest, middle (cheaper instance of the same obligation, kept as a regression probe for stale best-so-far tracking)","oracle":"as c15_router_longest_suffix_3routes","stubs":["tokio RwLock read = identity","next handler = recording stub"],"covers":4,"unwind":6}
     #[kani::proof]
     #[kani::unwind(6)]
     #[kani::stub(std::hash::RandomState::new, fixed_random_state)]
@@ -180,7 +180,7 @@ mod k {
         three_routes(true);
     }
 
-    /// VERIF: {"p":"C15","tier":"quick","fns":["dns::router::DnsRouteHandler::handle_query (lifted)"],"bounds":"one route with TWO suffixes (lengths 1 and 2, symbolic octets) plus one catch-all route (empty suffix); 3-label symbolic query; RD symbolic","oracle":"the multi-suffix route wins whenever either of its suffixes matches; the empty suffix matches everything else","stubs":["tokio RwLock read = identity","next handler = recording stub"],"covers":2,"unwind":6}
+    /// VERIF: {"p":"C15","tier":"experimental","fns":["dns::router::DnsRouteHandler::handle_query (lifted)"],"bounds":"one route with TWO suffixes (lengths 1 and 2, symbolic octets) plus one catch-all route (empty suffix); 3-label symbolic query; RD symbolic","oracle":"the multi-suffix route wins whenever either of its suffixes matches; the empty suffix matches everything else","stubs":["tokio RwLock read = identity","next handler = recording stub"],"covers":2,"unwind":6}
     #[kani::proof]
     #[kani::unwind(6)]
     #[kani::stub(std::hash::RandomState::new, fixed_random_state)]
